@@ -25,3 +25,5 @@ def register(group):
     g.append(('gen_Arc_reversed', 'Arc.reversed', [('self', T.ARC)], T.ARC))
     g.append(('gen_Arc_cropped', 'Arc.cropped', [('self', T.ARC), ('t0', 'R'), ('t1', 'R')], T.ARC))
     g.append(('gen_crop_bezier_cubic', 'crop_bezier', [('seg', T.CUBIC), ('t0', 'R'), ('t1', 'R')], T.LC))
+    g.append(('gen_crop_bezier_quad', 'crop_bezier', [('seg', T.QUAD), ('t0', 'R'), ('t1', 'R')], T.LC))
+    g.append(('gen_crop_bezier_line', 'crop_bezier', [('seg', T.LINE), ('t0', 'R'), ('t1', 'R')], T.LC))
